@@ -27,6 +27,9 @@ type SOp struct {
 	TS     int64  `json:"ts,omitempty"`    // seconds offset
 	Chain  string `json:"chain,omitempty"`
 	POL    int32  `json:"pol,omitempty"`
+	// Fault: the state file cannot be replaced while this request is served (the durable write fails and
+	// the process dies, as the signer panics); afterwards the file is usable again and the signer is reloaded.
+	Fault bool `json:"fault,omitempty"`
 }
 
 func blockIDOf(i int) tmproto.BlockID {
@@ -137,6 +140,13 @@ func TestC20(t *testing.T) {
 				continue
 			}
 			step := stepOf(*op)
+			var savedState []byte
+			if op.Fault {
+				// a directory with something in it where the state file was: the atomic rename over it fails
+				savedState, _ = os.ReadFile(statePath)
+				_ = os.Remove(statePath)
+				_ = os.MkdirAll(filepath.Join(statePath, "x"), 0o700)
+			}
 			ts := t0.Add(time.Duration(op.TS) * time.Second)
 			var signBytes, sig []byte
 			var gotTS time.Time
@@ -154,15 +164,39 @@ func TestC20(t *testing.T) {
 				sig, gotTS = p.Signature, p.Timestamp
 				signBytes = tmtypes.ProposalSignBytes(op.Chain, p)
 			}
-			if perr != nil {
-				return fail("signer panicked: %v", perr)
-			}
 			ident := identOf(*op)
 			c := 1
 			if m.has {
 				c = cmpHRS(op.H, op.R, step, m.h, m.r, m.step)
 			} else if op.H < 0 {
 				c = -1
+			}
+			if op.Fault {
+				_ = os.RemoveAll(statePath)
+				_ = os.WriteFile(statePath, savedState, 0o600)
+				if c > 0 {
+					// a fresh signature was due but its record could not be made durable: nothing may have been released
+					feats["durable_write_failed"] = true
+					if len(sig) != 0 {
+						return fail("a signature was released although the last-signed record could not be written (the request ended with %v / %v)", perr, serr)
+					}
+					if perr == nil && serr == nil {
+						return fail("the request reports success although the last-signed record could not be written")
+					}
+					// the process is gone; the next request meets a freshly loaded signer
+					if lerr := guard("LoadSFilePV", func() { pv = rcrypto.LoadSFilePV(keyPath, statePath, pass) }); lerr != nil {
+						return fail("reload after the failed write panicked: %v", lerr)
+					}
+					ls := pv.LastSignState
+					if m.has && (ls.Height != m.h || ls.Round != m.r || ls.Step != m.step) || !m.has && ls.Height != 0 {
+						return fail("after the failed write the durable record is (%d,%d,%d), the last released signature was for (%d,%d,%d)", ls.Height, ls.Round, ls.Step, m.h, m.r, m.step)
+					}
+					justReloaded = true
+					continue
+				}
+			}
+			if perr != nil {
+				return fail("signer panicked: %v", perr)
 			}
 			switch {
 			case c < 0:
@@ -228,7 +262,7 @@ func TestC20(t *testing.T) {
 		st.label("requests", len(ops))
 		shape := ""
 		for _, o := range ops {
-			shape += fmt.Sprintf("%s%d.%d.%d.%d;", o.Op[:1], o.H, o.R, o.Type, o.Block)
+			shape += fmt.Sprintf("%s%d.%d.%d.%d%v;", o.Op[:1], o.H, o.R, o.Type, o.Block, o.Fault)
 		}
 		st.caseDone(feats["conflict_rejected_after_reload"] || feats["timestamp_only_repeat_after_reload"], shape, func() interface{} {
 			var s []string
@@ -300,6 +334,7 @@ func TestC20(t *testing.T) {
 			if pct(rt, 4, "otherChain") {
 				op.Chain = "d"
 			}
+			op.Fault = pct(rt, 8, "writeFault")
 			return op
 		}, withPass)
 		finish(ops, feats)
